@@ -12,7 +12,7 @@ RULE = ('pairs: 1/(p+a) -> exp(-a t), 1/(p+a)^2 -> t exp(-a t) (a in {1/2, 1, 3}
         'log(1+1/p) -> (1-exp(-t))/t, exp(-a sqrt p)/p -> erfc(a/(2 sqrt t)) (a in {1/2, 2}), and the oscillatory 1/(p^2+1) -> sin t, p/(p^2+4) -> cos 2t, 1/(sqrt(p+i) sqrt(p-i)) -> J0(t) (cuts to the left), '
         '(p+1)/((p+1)^2+4) -> exp(-t) cos 2t (talbot and dehoog only: stehfest is documented as unsuitable for oscillatory functions; talbot only while frequency*t <= 10, its documented contour limitation; points where |f(t)| < 1e-6 of its scale are skipped and counted); times {0.01, 0.1, 1, 4, 10}; methods '
         'talbot, stehfest, dehoog given by name, by class, and through invlaptalbot/invlapstehfest/invlapdehoog; decimal precisions in the orders (15,20,30,40,50) and '
-        '(50,15,40) (thorough adds 75); default degree, and explicit degree = the default one (must agree).  |result - f(t)| <= 10^(3-dps/2) * max(|f(t)|, envelope) '
+        '(50,15,40) (thorough adds 75); default degree, explicit degree = the default one (must agree), and for stehfest explicit degrees that select the same working precision as the default with fewer terms (gross errors only).  |result - f(t)| <= 10^(3-dps/2) * max(|f(t)|, envelope) '
         'where envelope = 1 for the oscillatory pairs.  mp.prec is unchanged after every call.  non-trivial = every call; distinct by construction')
 ASSUMPTIONS = ['closed-form inverses (exp, erfc, besselj, sin) are evaluated by the library at 3x precision (C12, C20, C21)']
 BOUNDS = {'quick': 'dps up to 50', 'thorough': 'adds dps 75'}
@@ -61,7 +61,9 @@ def t_pair(task):
         name, F, f, env, osc = pairs(mp)[idx]
         if osc and method == 'stehfest':
             acc.count('skipped_documented_unsuitable'); acc.sample(['skipped', name, method]); return acc
-        seqs = [(15, 20, 30, 40, 50) + ((75,) if tier == 'thorough' else ()), (50, 15, 40)]
+        seqs = [(15, 20, 30, 40, 50) + ((75,) if tier == 'thorough' else ()), (50, 15, 40), (16, 18, 22)]
+        # explicit degrees that make the method choose the SAME working precision as its default at that dps, with a different number of terms
+        SAMEPREC = {'stehfest': {16: 34, 18: 38, 22: 47, 40: 85, 50: 106}, 'talbot': {}, 'dehoog': {}}
         cls = {'talbot': il.FixedTalbot, 'stehfest': il.Stehfest, 'dehoog': il.deHoog}[method]
         conv = {'talbot': mp.invlaptalbot, 'stehfest': mp.invlapstehfest, 'dehoog': mp.invlapdehoog}[method]
         for ts in TIMES:
@@ -73,8 +75,11 @@ def t_pair(task):
                 acc.count('skipped_negligible_value'); continue                          # |f(t)| < 1e-6 of its scale: relative accuracy is not what the methods are tuned for
             for si, seq in enumerate(seqs):
                 for step, dps in enumerate(seq):
-                    for how in (('name',) if si else ('name', 'class', 'alias', 'degree')):
-                        if how != 'name' and dps not in (15, 40):
+                    for how in (('name', 'degree2') if si else ('name', 'class', 'alias', 'degree', 'degree2')):
+                        if how == 'degree2':
+                            if dps not in SAMEPREC[method]:
+                                continue
+                        elif how != 'name' and dps not in (15, 40):
                             continue
                         mp.dps = dps
                         prec0 = mp.prec
@@ -88,6 +93,8 @@ def t_pair(task):
                                 got = core.with_timeout(120, mp.invertlaplace, F, t, method=cls)
                             elif how == 'alias':
                                 got = core.with_timeout(120, conv, F, t)
+                            elif how == 'degree2':
+                                got = core.with_timeout(120, mp.invertlaplace, F, t, method=method, degree=SAMEPREC[method][dps])
                             else:
                                 # explicit degree equal to the one the method would choose
                                 deg = {'talbot': max(12, int(1.38 * int(1.72 * dps))), 'stehfest': max(16, int(2.93 * dps)), 'dehoog': max(10, int(dps * 1.36))}[method]
@@ -104,7 +111,7 @@ def t_pair(task):
                         ex = f(tt)
                         scale = max(abs(ex), env) if env is not None else abs(ex)
                         allowed = mp.mpf(10) ** (3 - mp.mpf(dps) / 2) * scale
-                        if how == 'degree':
+                        if how in ('degree', 'degree2'):
                             allowed = allowed * 1000            # an explicit degree fixes the working precision differently (documented): only gross errors
                         err = abs(got - ex)
                         if not err <= allowed:
